@@ -75,6 +75,23 @@ _c("C19", "inproc",
    "Generated-input search: 3k (quick) / 40k (thorough) derive inputs (TryInto/FromStr/Mul-like/Error biased, plus shape x derive sampling) are expanded twice in one process, in a seeded permutation of the order, and in 8 (quick) / 48 (thorough) fresh processes (per-process hash seeds, alternating forward/reverse order); token texts must be identical. Exploration only.",
    "in-process expansion calls the same expand functions as the proc-macro entry points; std RandomState differs per process")
 
+_c("C05", "proggen",
+   "differential testing of generated derive programs against format! applied directly to the denoted argument under a covering grid of 88 outer format specs, plus a negative-compile shard",
+   "Generated-input search over 9 derive traits x literal class (no attribute; one bare placeholder in each trait; exactly one modifier of each kind; text or escape; two placeholders; none) x argument form (field by name, positional, named matching, named by position, expression, out-of-range index, unused argument): ~900 (quick) / ~30k (thorough) cases; substitutable cases must equal the same outer spec applied to the argument under the placeholder's trait, all other runnable cases must equal their flag-free output (= format!(literal, args)), out-of-range indices must be rejected by rustc. Exploration only.",
+   "trusts format! of the installed stable toolchain; names of outer non-field bindings are not generated (the statement does not classify them)")
+_c("C06", "proggen",
+   "differential testing of generated type families against twin definitions deriving std Debug (or using std's builders with finish_non_exhaustive / &format_args!) under a covering grid of 128 formatter configurations x 11 nestings",
+   "Generated-input search: ~680 (quick) / ~22k (thorough) type families (all struct/enum shapes, generics, raw identifiers, nesting to depth 3, every skip/ignore subset, field formats) compiled three times with identical names (derive_more::Debug, reference twin, twin carrying the recorded defect model); every value is rendered under 128 outer specs x 11 nestings and compared text for text. Exploration only.",
+   "trusts the std derive and builders; the hand-written reference impls are self-checked against the std derive on attribute-less types in every case; one recorded finding (pretty-printing DebugTuple drops the caller's flags) is attributed only when the text equals the defect model's prediction exactly")
+_c("C09", "proggen+inproc",
+   "model-based differential testing of generated derive(Error) programs (stable and nightly shards) with a pointer-identity run-time oracle, a metamorphic ignore twin, negative compile cases, and an exhaustive in-process accept/reject sweep",
+   "Generated-input search: ~2k (quick) / ~30k (thorough) structs and enum variants over field layouts (0..3 named/positional fields x attribute x name x type, generic and concrete, container-level ignore); the data pointer of source()'s result is compared with the address of every field (boxed dyn: the boxed value) against a three-valued model of error.md; layouts with a backtrace run in a nightly shard; two explicit sources must fail to compile; the derive-level accept/reject clause is enumerated completely over 85,884 layouts in-process. Exploration; exhaustive only for that sweep.",
+   "documentation-open layouts are counted as Unspecified and not checked; the nightly shard needs cargo +nightly (exit 2 if absent)")
+_c("C12", "proggen",
+   "model-based testing of generated #[try_from(repr)] enums against the enum-to-integer cast (generator-computed Reference-rule discriminants cross-checked with `as` casts of a field-stripped twin), exhaustive over the integer domain for 8/16-bit reprs",
+   "Generated-input search: ~2.5k (quick) / ~30k (thorough) enums (discriminant patterns incl. constant expressions, variants with fields interleaved, every integer repr alone or with other hints, generics); for 8/16-bit reprs every integer is tried, for wider ones discriminants +-1, extremes, 0 and 6000 seeded values: Ok iff the discriminant of a field-less variant (tag re-read equals n), else Err carrying n. Exploration; exhaustive per generated enum only over the 8/16-bit input domain.",
+   "u128 discriminants kept within 0..=i128::MAX; the tag of enums with fields is read only under a primitive repr")
+
 NOT_YET = {}
 
 def main():
